@@ -292,3 +292,23 @@ B('c10-broadcast-arrays-nocheck', 'C10', ALIGN, "    # now broadcast each DimArr
 B('c10-getaxes-no-raise', ['C10', 'C12'], ALIGN, "            if not (axis.size == 1 or np.all(axis.values==common_axis.values)):\n                raise ValueError(\"axes are not aligned\")", "            if not (axis.size == 1 or axis.size == common_axis.size):\n                raise ValueError(\"axes are not aligned\")", 'only sizes compared')
 N('c10-n-rename', 'C10', RESH, "newshape", "perm", 'rename', all=True)
 N('c10-n-squeeze-cond', 'C10', RESH, "        newaxes = [ax for ax in self.axes if ax.name != name or ax.size != 1] ", "        newaxes = [a for a in self.axes if a.name != name or a.size != 1] ", 'rename comprehension variable')
+
+# ------------------------------------------------------------------------------- C11
+B('c11-F11-no-clamp', 'C11', RESH, "    insert = min(insert, self.ndim - n) # the group cannot start beyond that position\n", "", 'reintroduce F11')
+B('c11-F12-rename-shared', ['C11', 'C15'], RESH, "    o = o._constructor(o.values, [ax.copy() for ax in o.axes], **o.attrs)\n", "", 'reintroduce F12')
+B('c11-guard-narrowed', 'C11', RESH, "    if dims != self.dims[insert:insert+len(dims)]:", "    if n > 1 and dims != self.dims[insert:insert+n]:", 'seeded C11-1')
+B('c11-guard-window', 'C11', RESH, "    if dims != self.dims[insert:insert+len(dims)]:", "    if dims != self.dims[insert:insert+len(dims)+1][:len(dims)] and dims[0] != self.dims[insert]:", 'guard too weak')
+B('c11-order-F', 'C11', RESH, "    newvalues = self.values.reshape(newshape)\n\n    # Define the new array", "    newvalues = self.values.reshape(newshape, order='F')\n\n    # Define the new array", 'values regrouped in Fortran order')
+B('c11-meshgrid-xy', 'C11', AXES, '    kwargs = dict(indexing="ij")', '    kwargs = dict(indexing="xy")', 'labels enumerated in xy order')
+B('c11-ravel-F', 'C11', AXES, "zip(*[g.ravel() for g in grd])", "zip(*[g.ravel('F') for g in grd])", '')
+B('c11-members-order', 'C11', RESH, "    newaxis = MultiAxis(*[ax for ax in self.axes if ax.name in dims])", "    newaxis = MultiAxis(*[self.axes[d] for d in sorted(dims)])", 'members sorted by name')
+B('c11-insert-mismatch', 'C11', RESH, "    newaxes.insert(insert, newaxis)\n", "    newaxes.insert(0, newaxis)\n", 'grouped axis always first')
+B('c11-unflatten-shape-k', 'C11', RESH, "    newshape = self.shape[:axis] + tuple(ax.size for ax in group.axes) + self.shape[axis+1:]", "    newshape = self.shape[:axis] + tuple(ax.size for ax in group.axes)[::-1] + self.shape[axis+1:]", 'member sizes reversed')
+B('c11-unflatten-all-self', 'C11', RESH, "            obj = obj.unflatten(axis=axis)\n        return obj", "            obj = self.unflatten(axis=axis)\n        return obj", 'only the last grouped axis expanded')
+B('c11-reshape-squeeze-all', 'C11', RESH, "            o = o.squeeze(dim)", "            o = o.squeeze()", 'seeded C11-2')
+B('c11-reshape-newaxis-pos', 'C11', RESH, "            o = o.newaxis(dim, pos=i)", "            o = o.newaxis(dim, pos=0)", 'singletons always first')
+B('c11-reshape-flatten-insert', 'C11', RESH, "            o = o.flatten(d.split(','), insert=i)", "            o = o.flatten(d.split(','))", 'group not placed at its index')
+B('c11-reshape-order', 'C11', RESH, "    # Transpose array to match existing dimensions\n    if transpose:\n        o = o.transpose([dim for dim in newdims_unflattened if dim in o.dims])\n", "", 'no transposition')
+B('c11-multiaxis-order', 'C11', AXES, "        self.axes = Axes(axes)\n        self._name", "        self.axes = Axes(axes[::-1])\n        self._name", 'members reversed')
+N('c11-n-rename', 'C11', RESH, "newvalues", "regrouped", 'rename', all=True)
+N('c11-n-len', 'C11', RESH, "    if dims != self.dims[insert:insert+len(dims)]:", "    if dims != self.dims[insert:insert+n]:", 'n instead of len(dims)')
